@@ -16,6 +16,12 @@ Open Scope N_scope.
 Theorem C14_generated_cfg_ok : cfg_ok json_cfg = true.
 Proof. vm_compute. reflexivity. Qed.
 
+(* the writer's `indent` option given as text (constructor argument / URL query), as OBSERVED for every probed spelling:
+   it becomes the indentation LEVEL Python's int() reads from it, or is refused at construction when it denotes no
+   number; it is never inserted literally unless it is JSON white space (so indentation only changes the layout) *)
+Theorem C14_generated_options_ok : options_ok json_options = true.
+Proof. vm_compute. reflexivity. Qed.
+
 (* base64.b64decode (base64.b64encode bs) = bs, for ALL byte strings *)
 Theorem C14_base64_roundtrip : forall bs : bytes, b64_decode (b64_encode bs) = Some bs.
 Proof. exact b64_roundtrip. Qed.
